@@ -331,6 +331,12 @@ func (s *transactionStore) Watch(ctx context.Context, ch chan<- configapi.Transa
 				delete(s.watchers, id)
 			}
 			s.mu.Unlock()
+			// the dispatcher may be in the middle of handing an event to this watcher: keep taking them,
+			// whichever way the watch ends, or the dispatcher blocks for every other watcher too
+			go func() {
+				for range eventCh {
+				}
+			}()
 		}()
 
 		if options.replay {
@@ -349,9 +355,15 @@ func (s *transactionStore) Watch(ctx context.Context, ch chan<- configapi.Transa
 						close(ch)
 						return
 					}
-					ch <- configapi.TransactionEvent{
+					select {
+					case ch <- configapi.TransactionEvent{
 						Type:        configapi.TransactionEvent_REPLAYED,
 						Transaction: *transaction,
+					}:
+					case <-ctx.Done():
+						// the watcher may have stopped reading before it cancelled
+						close(ch)
+						return
 					}
 				}
 			} else {
@@ -377,9 +389,15 @@ func (s *transactionStore) Watch(ctx context.Context, ch chan<- configapi.Transa
 					transaction := entry.Value
 					transaction.Index = configapi.Index(entry.Index)
 					transaction.Version = uint64(entry.Version)
-					ch <- configapi.TransactionEvent{
+					select {
+					case ch <- configapi.TransactionEvent{
 						Type:        configapi.TransactionEvent_REPLAYED,
 						Transaction: *transaction,
+					}:
+					case <-ctx.Done():
+						// the watcher may have stopped reading before it cancelled
+						close(ch)
+						return
 					}
 				}
 			}
